@@ -77,7 +77,7 @@ static bool must_fail(int cls) {
   uint64_t idx = g_cnt[cls]++;
   if (g_needle && cls == kArena) note_stack(idx);
   bool f = g_random ? (rng_next() % 1000u) < g_permille : g_fail[cls].count(idx) != 0;
-  if (f) g_fired[cls]++;
+  if (f) { g_fired[cls]++; if (getenv("C15_TRACE")) fprintf(stderr, "fired cls=%d idx=%llu\n", cls, (unsigned long long)idx); }
   return f;
 }
 
@@ -94,15 +94,15 @@ int __real_ftruncate(int, off_t);
 int __real_ftruncate64(int, off64_t);
 int __real_close(int);
 
-bool c15_ops_heap_fail();
+bool c15_ops_heap_fail(size_t n);
 void* __wrap_malloc(size_t n) {
-  if (must_fail(kHeap) || c15_ops_heap_fail()) { errno = ENOMEM; return nullptr; }
+  if (must_fail(kHeap) || c15_ops_heap_fail(n)) { errno = ENOMEM; return nullptr; }
   void* p = __real_malloc(n);
   if (g_track && p) { bool t = g_track; g_track = false; g_live_heap->insert(p); g_track = t; }
   return p;
 }
 void* __wrap_realloc(void* old, size_t n) {
-  if (must_fail(kHeap) || c15_ops_heap_fail()) { errno = ENOMEM; return nullptr; }
+  if (must_fail(kHeap) || c15_ops_heap_fail(n)) { errno = ENOMEM; return nullptr; }
   void* p = __real_realloc(old, n);
   if (g_live_heap && p) { bool t = g_track; g_track = false; if (g_live_heap->erase(old) || t) g_live_heap->insert(p); g_track = t; }
   return p;
@@ -960,8 +960,9 @@ static bool ops_arena_pred() {
   uint64_t i = g_op_cnt++;
   return i < 64 && ((g_op_mask >> i) & 1);
 }
-extern "C" bool c15_ops_heap_fail() {
+extern "C" bool c15_ops_heap_fail(size_t n) {
   if (!g_op_armed || !g_op_heap) return false;
+  if (n + 32 >= 8192 && ((n + 32) & (n + 31)) == 0) return false;   // a block of the CodeHolder arena, not a request of the operation
   uint64_t i = g_op_cnt++;
   return i < 64 && ((g_op_mask >> i) & 1);
 }
@@ -1117,6 +1118,23 @@ static std::string ops_step(const std::vector<std::string>& w) {
       g_op_armed = false;
     }
   }
+  else if (op == "inst" || op == "jmpf") {
+    // a plain x86 instruction / a jump to the never-bound label l0 through the real x86::Assembler::_emit
+    if (!U(3, u0) || (op == "inst" && !U(4, u1))) return "bad-op";
+    if (op == "jmpf" && !c.l0.is_valid()) return "precond";
+    if (!code.is_section_valid(uint32_t(u0))) e = Error::kInvalidSection;
+    else {
+      c.a.section(code.section_by_id(uint32_t(u0)));
+      g_op_heap = true;
+      g_op_armed = true;
+      if (op == "jmpf") e = c.a.jmp(c.l0);
+      else if (u1 == 0) e = c.a.nop();
+      else if (u1 == 1) e = c.a.mov(x86::eax, 0x11223344);
+      else if (u1 == 2) e = c.a.ret();
+      else e = c.a.add(x86::rax, x86::rcx);
+      g_op_armed = false;
+    }
+  }
   else if (op == "padd") {
     // ConstPool::add on its own arena: `<Error|ok> n=<requests> off=<offset|-> | P=<size>:<alignment>:<gap pool>:<image> G=<index:offset:size,...>`
     if (w.size() != 4 || !vh::hex_to_bytes(w[3], name)) return "bad-op";
@@ -1157,6 +1175,125 @@ static std::string ops_step(const std::vector<std::string>& w) {
   else return "bad-op";
   return ename(e) + " n=" + std::to_string(g_op_cnt) + " | " + ops_state();
 }
+// PART 3: BaseBuilder calls with a per-call fault mask (model: lean/AsmjitVerif/Model/FaultBuilder.lean)
+//   b reset | b <mask> emit <k> <0|1> | newlabel | clabel | bind <l> | align <n> | embed <n> | elabel <l> | comment <len>
+//       -> <Error|ok> n=<requests> | N=<node list> LC=<labels> | C=<label_entries cap>,<label_nodes cap> LN=<node present per label>
+struct BCtx {
+  Environment env;
+  CodeHolder code;
+  x86::Builder b;
+  EH eh;
+};
+static std::unique_ptr<BCtx> g_b;
+
+static std::string b_state() {
+  BCtx& c = *g_b;
+  std::string s = "N=";
+  for (BaseNode* n = c.b.first_node(); n; n = n->next()) {
+    switch (n->type()) {
+      case NodeType::kSection: s += "S" + std::to_string(n->as<SectionNode>()->section_id()); break;
+      case NodeType::kInst: {
+        InstId id = n->as<InstNode>()->inst_id();
+        int k = id == x86::Inst::kIdNop ? 0 : id == x86::Inst::kIdMov ? 1 : id == x86::Inst::kIdRet ? 2 : 3;
+        s += "I" + std::to_string(k) + (n->has_inline_comment() ? "c" : "");
+        break;
+      }
+      case NodeType::kLabel: s += "L" + std::to_string(n->as<LabelNode>()->label_id()); break;
+      case NodeType::kAlign: s += "A" + std::to_string(n->as<AlignNode>()->alignment()); break;
+      case NodeType::kEmbedData: s += "D" + std::to_string(n->as<EmbedDataNode>()->data_size()); break;
+      case NodeType::kEmbedLabel: s += "E" + std::to_string(n->as<EmbedLabelNode>()->label_id()); break;
+      case NodeType::kComment: s += "C" + std::to_string(n->inline_comment() ? strlen(n->inline_comment()) : 0); break;
+      default: s += "?"; break;
+    }
+    s += ",";
+  }
+  s += " LC=" + std::to_string(c.code.label_count());
+  s += " | C=" + std::to_string(c.code._label_entries.capacity()) + "," + std::to_string(c.b._label_nodes.capacity()) + " LN=";
+  for (LabelNode* ln : c.b._label_nodes) s += ln ? "1" : "0";
+  return s;
+}
+
+static std::string b_step(const std::vector<std::string>& w) {
+  if (w.size() < 2) return "bad-op";
+  if (w[1] == "reset") {
+    g_b.reset();
+    g_b.reset(new BCtx());
+    BCtx& c = *g_b;
+    c.env.init(Arch::kX64);
+    if (c.code.init(c.env) != Error::kOk) return "init-failed";
+    c.code.set_error_handler(&c.eh);
+    if (c.code.attach(&c.b) != Error::kOk) return "attach-failed";
+    return "ok n=0 | " + b_state();
+  }
+  if (!g_b || w.size() < 3) return "bad-op";
+  BCtx& c = *g_b;
+  uint64_t mask, u0 = 0, u1 = 0;
+  if (!vh::parse_hex(w[1], mask)) return "bad-op";
+  const std::string& op = w[2];
+  auto U = [&](size_t i, uint64_t& v) { return i < w.size() && vh::parse_u64(w[i], v); };
+  c.eh.clear();
+  g_op_mask = mask; g_op_cnt = 0; g_op_heap = false;
+  Error e = Error::kOk;
+  if (op == "emit") {
+    if (!U(3, u0) || !U(4, u1)) return "bad-op";
+    if (u1) c.b.set_inline_comment("a comment");
+    g_op_armed = true;
+    if (u0 == 0) e = c.b.nop();
+    else if (u0 == 1) e = c.b.mov(x86::eax, 0x11223344);
+    else if (u0 == 2) e = c.b.ret();
+    else e = c.b.add(x86::rax, x86::rcx);
+    g_op_armed = false;
+  }
+  else if (op == "newlabel") {
+    g_op_armed = true;
+    Label l = c.b.new_label();
+    g_op_armed = false;
+    e = l.is_valid() ? Error::kOk : (c.eh.count ? c.eh.first : Error::kOutOfMemory);
+  }
+  else if (op == "clabel") {
+    uint32_t id;
+    g_op_armed = true;
+    e = c.code.new_label_id(Out(id));
+    g_op_armed = false;
+  }
+  else if (op == "bind") {
+    if (!U(3, u0)) return "bad-op";
+    g_op_armed = true;
+    e = c.b.bind(Label(uint32_t(u0)));
+    g_op_armed = false;
+  }
+  else if (op == "align") {
+    if (!U(3, u0)) return "bad-op";
+    g_op_armed = true;
+    e = c.b.align(AlignMode::kCode, uint32_t(u0));
+    g_op_armed = false;
+  }
+  else if (op == "embed") {
+    if (!U(3, u0)) return "bad-op";
+    std::vector<uint8_t> d(size_t(u0) + 1, 0x5A);
+    g_op_armed = true;
+    e = c.b.embed(d.data(), size_t(u0));
+    g_op_armed = false;
+  }
+  else if (op == "elabel") {
+    if (!U(3, u0)) return "bad-op";
+    g_op_armed = true;
+    e = c.b.embed_label(Label(uint32_t(u0)), 0);
+    g_op_armed = false;
+  }
+  else if (op == "comment") {
+    if (!U(3, u0)) return "bad-op";
+    // NOTE: for size 0 BaseBuilder::new_comment_node keeps the CALLER's pointer (nothing is duplicated) - a static literal is
+    // passed so that the node never points into a dead buffer (reported in notes/C15.md; not an allocation-failure matter)
+    static const char empty[] = "";
+    std::string t(size_t(u0), 'x');
+    g_op_armed = true;
+    e = u0 ? c.b.comment(t.c_str(), t.size()) : c.b.comment(empty, 0);
+    g_op_armed = false;
+  }
+  else return "bad-op";
+  return ename(e) + " n=" + std::to_string(g_op_cnt) + " | " + b_state();
+}
 // OPS-END
 
 int main() {
@@ -1180,6 +1317,7 @@ int main() {
       return s;
     }
     if (w[0] == "fault" || w[0] == "multi") return run_fault(w);
+    if (w[0] == "b") return b_step(w);
     return ops_step(w);
   });
 }
